@@ -294,18 +294,26 @@ def main(check, tier, base_seed):
                     known_hit[k["sig"]] = [k, 1, rp["violation"]]
 
         nviol = 0
-        max_report = 5
+        max_report = 3
         for sig, (bname, idx, r, v) in sorted(reported.items())[:max_report]:
             replayer = make_replayer(check, bname, ctx)
 
-            def test(values, _rp=replayer, _sig=sig):
-                res = pool.run_isolated(_rp, values, 300)
-                if "harness" in res:
-                    return None, None
-                return sig_of(res, _sig), res.get("tape")
+            def test_many(cands, _rp=replayer, _sig=sig):
+                def fn(i):
+                    return _rp(cands[i])
+                out = pool.run_batch(fn, range(len(cands)), workers=workers, budget_s=600,
+                                     per_run_timeout=300)
+                got = {i: res for i, res in out}
+                ans = []
+                for i in range(len(cands)):
+                    res = got.get(i)
+                    if res is None or "harness" in res:
+                        ans.append((None, None))
+                    else:
+                        ans.append((sig_of(res, _sig), res.get("tape")))
+                return ans
 
-            small, used = minimise(r["tape"], test, sig, max_runs=250 if tier == "quick" else 400,
-                                   max_s=90 if tier == "quick" else 150)
+            small, used = minimise(r["tape"], test_many, sig, max_s=60 if tier == "quick" else 150)
             final = pool.run_isolated(replayer, small, 300)
             if "harness" in final or sig_of(final, sig) != sig:
                 small = r["tape"]
@@ -317,7 +325,8 @@ def main(check, tier, base_seed):
                 continue
             vv = [x for x in final["violations"] if x["sig"] == sig][0]
             os.makedirs(os.path.join(VERIF, "replays", prop), exist_ok=True)
-            rpath = os.path.join(VERIF, "replays", prop, "%d-%s-%d.json" % (base_seed, bname, idx))
+            rpath = os.path.join(VERIF, "replays", prop, "%d-%s-%d-%s.json" %
+                                 (base_seed, bname, idx, hashlib.sha256(sig.encode()).hexdigest()[:8]))
             with open(rpath, "w", encoding="utf-8") as f:
                 json.dump({"property": prop, "base_seed": base_seed, "tier": tier, "batch": bname,
                            "run_index": idx, "tape": small, "tape_len_before": len(r["tape"]),
@@ -331,7 +340,7 @@ def main(check, tier, base_seed):
                 continue
             nviol += 1
             print("violation %s: %s" % (vv["inv"], vv["detail"][:800]))
-            print("  minimised tape %d -> %d draws in %d re-runs; fresh-interpreter replay confirmed%s"
+            print("  minimised tape %d -> %d draws (%d candidates evaluated); fresh-interpreter replay confirmed%s"
                   % (len(r["tape"]), len(small), used, "" if deq else " (event-log digest differs!)"))
             print("VIOLATION property=%s replay=%s" % (prop, rpath))
         if len(reported) > max_report:
